@@ -384,6 +384,6 @@ pub fn def() -> PropDef {
         level: "exploration",
         rule: "statement kind in {COPY .. TO, CREATE EXTERNAL TABLE, CREATE [OR REPLACE] TABLE AS / VIEW (incl. named metrics), DROP TABLE/VIEW, INSERT, SET, CREATE SCHEMA, PREPARE, TRUNCATE, DELETE, UPDATE, EXPLAIN [ANALYZE] of those, two-statement strings, SELECT controls} x target in {existing chunk path, new path under the tenant, catalog path, file:// scratch dir, relative path} x {PARQUET, CSV, JSON} x decoration (case, comment, trailing ;) x interface in {QueryNode::query, HTTP POST / GET /api/v1/sql through the axum router, FlightSql execute_batches / do_get / get_flight_info / create_prepared_statement, StreamingQueryExecutor::execute, Prometheus /api/v1/query with the statement smuggled into a selector} x catalog back-end x cold/warm node. Non-trivial = the statement is not a plain SELECT.",
         assumptions: &["the snapshot covers: all objects with bytes, count of mutating store requests, catalog via a fresh client, scratch + working directory, session catalogs/schemas/tables, session configuration, answer of a fixed probe query"],
-        subs: || vec![Box::new(Sub::<Case> { name: "statements", cases: |t| t.scale(8_000, 6), strategy, exec })],
+        subs: || vec![Box::new(Sub::<Case> { name: "statements", cases: |t| t.scale(12_000, 5), strategy, exec })],
     }
 }
